@@ -18,7 +18,7 @@ case $variant in
   *) echo "unknown variant $variant" >&2; exit 2 ;;
 esac
 if [ ! -f "$dir/build.ninja" ]; then
-  cmake -G Ninja -S /repo -B "$dir" -DCMAKE_BUILD_TYPE=RelWithDebInfo \
+  cmake -G Ninja -S "${VERIF_REPO:-/repo}" -B "$dir" -DCMAKE_BUILD_TYPE=RelWithDebInfo \
     -DCMAKE_CXX_COMPILER=$cxx -DCMAKE_CXX_FLAGS="$flags" \
     -DBUILD_SHARED_LIBS=OFF -DBUILD_TESTING=OFF \
     -DLLBUILD_SUPPORT_BINDINGS="" > "$dir.cmake.log" 2>&1 || { cat "$dir.cmake.log" >&2; exit 2; }
